@@ -37,7 +37,7 @@ import (
 	"github.com/dolthub/dolt/go/zzverif/vh"
 )
 
-const c10Rule = "stores: local table-file store with one table file (2..6 (thorough 14) small chunks committed through Put/Commit) plus one archive (2..6 (thorough 10) chunks, snappy and zstd-with-dictionary records, added through WriteTableFile+AddTableFilesToManifest), archive indexes heap or mmap; journal store with 2..4 acknowledged commits. For each target file of {table file, archive, manifest, journal}: every single-byte corruption (each offset x {^0x01, ^0x80, 0x00, 0xff}, skipped when the byte would not change) and every truncation length (all for files <= 4 KiB, 4000 sampled offsets beyond), then open + Root + Count + Has/Get of every stored address + GetMany + IterateAllChunks under recover(). Violation: a panic, or data under a stored address that differs from what was stored, or (manifest/journal) a silently different root than an acknowledged one the corruption could not have touched. Non-trivial variant: the corrupted byte / cut lies in index, footer, metadata, manifest or journal bytes (not chunk payload) of a file with >= 2 chunks. Distinct by (store content hash, file kind, offset, variant)."
+const c10Rule = "stores: local table-file store with one table file (2..6 (thorough 14) small chunks committed through Put/Commit) plus one archive (2..6 (thorough 10) chunks, snappy and zstd-with-dictionary records, added through WriteTableFile+AddTableFilesToManifest), archive indexes heap or mmap; journal store with 2..4 acknowledged commits. For each target file of {table file, archive, manifest, journal}: every single-byte corruption (each offset x {^0x01, ^0x80, 0x00, 0xff}, skipped when the byte would not change) and, except for the journal (truncation = torn tail, C03/C04), every truncation length (all for files <= 4 KiB, 4000 sampled offsets beyond), then open + Root + Count + Has/Get of every stored address + GetMany + IterateAllChunks under recover(). Violation: a panic, or data under a stored address that differs from what was stored, or (manifest/journal) a silently different root than an acknowledged one the corruption could not have touched. Non-trivial variant: the corrupted byte / cut lies in index, footer, metadata, manifest or journal bytes (not chunk payload) of a file with >= 2 chunks. Distinct by (store content hash, file kind, offset, variant)."
 
 // verifQuota refuses absurd allocation requests the way a memory-limited deployment would; a
 // corrupted 32-bit count otherwise turns into a multi-GiB allocation that the driver's address
@@ -515,8 +515,23 @@ func (e *c10Env) enumerate(rt *rapid.T, t *testing.T, rec *vh.Recorder, id strin
 		sort.Ints(offs)
 		rec.Class("sampled_offsets", 1)
 	}
+	variants := []string{"xor01", "xor80", "zero", "ff", "trunc"}
+	if e.c.Kind == "journal" {
+		// journal truncation semantics (torn tails) belong to C03/C04; here only bytes inside
+		// acknowledged records are corrupted and the file keeps its length
+		variants = variants[:4]
+		if n := len(e.c.Commits); n > 0 {
+			var in []int
+			for _, o := range offs {
+				if int64(o) < e.c.Commits[n-1].Size {
+					in = append(in, o)
+				}
+			}
+			offs = in
+		}
+	}
 	for _, off := range offs {
-		for _, v := range []string{"xor01", "xor80", "zero", "ff", "trunc"} {
+		for _, v := range variants {
 			mut, ok := c10Mutate(orig, off, v)
 			if !ok {
 				continue
